@@ -65,7 +65,7 @@ def parse_stream(data):
 
 
 # ------------------------------------------------------------------ child process
-def _child(reactor, threads, k_msgs, sizes, seed, timeout):
+def _child(reactor, threads, k_msgs, sizes, seed, timeout, cap=0):
     repo = os.environ.get("VERIF_REPO", "/repo")
     sys.path.insert(0, repo)
     import logging
@@ -93,6 +93,13 @@ def _child(reactor, threads, k_msgs, sizes, seed, timeout):
     if reactor == "asyncio":
         from cassandra.io.asyncioreactor import AsyncioConnection
         a, b = socket.socketpair()
+        if cap:
+            # a socket that takes at most `cap` bytes per send() call (a nearly full send buffer): short writes are
+            # the environment's business, whatever the reactor does about them the byte stream must be the same
+            class ShortWriteSocket(socket.socket):
+                def send(self, data, *flags):
+                    return socket.socket.send(self, bytes(data)[:cap], *flags)
+            a = ShortWriteSocket(fileno=a.detach())
 
         class Conn(AsyncioConnection):
             def _connect_socket(self):
@@ -143,11 +150,11 @@ def _child(reactor, threads, k_msgs, sizes, seed, timeout):
     os._exit(0)
 
 
-def run_reactor(reactor, threads, k_msgs, sizes, seed, timeout=20):
+def run_reactor(reactor, threads, k_msgs, sizes, seed, timeout=20, cap=0):
     """Run one real execution in a subprocess; returns the event list (or raises RuntimeError)."""
     here = os.path.dirname(os.path.dirname(os.path.dirname(os.path.abspath(__file__))))
     code = ("import sys; sys.path.insert(0, %r); from harness.replay import pushqueue as p; "
-            "p._child(%r, %d, %d, %r, %d, %d)" % (here, reactor, threads, k_msgs, sizes, seed, timeout))
+            "p._child(%r, %d, %d, %r, %d, %d, %d)" % (here, reactor, threads, k_msgs, sizes, seed, timeout, cap))
     p = subprocess.run([sys.executable, "-c", code], stdout=subprocess.PIPE, stderr=subprocess.PIPE, timeout=timeout + 60,
                        text=True)
     line = p.stdout.strip().splitlines()[-1] if p.stdout.strip() else ""
